@@ -1,5 +1,6 @@
 import RtVerif.Model.C07
 import RtVerif.Lemmas.C07
+import RtVerif.Lemmas.C07Mono
 /-
   C07 — property theorems (helpers live in Lemmas/C07.lean).
 
@@ -251,6 +252,28 @@ theorem units_exact (q : Q) (h : q.digits ≤ Facts.maxQDigits) :
   generalize 10 ^ Facts.maxQDigits = C at hp
   subst hp
   simp only [Nat.add_mul, Nat.mul_add, Nat.mul_assoc, Nat.mul_comm, Nat.mul_left_comm]
+
+/-- the q-value `expectQuality` produces for `<int>.<ds>` (`fracPart` is its tail after the integer digit) -/
+def parsedQ (int : Nat) (ds : Bytes) : Q :=
+  ⟨int, (digitsLoop Facts.maxQDigits ds 0 0 0).1.1, (digitsLoop Facts.maxQDigits ds 0 0 0).1.2⟩
+
+theorem fracPart_dot (int : Nat) (ds : Bytes) : (fracPart int (46 :: ds)).1 = some (parsedQ int ds) := rfl
+
+/-- **T5**: a q-value whose digits denote a smaller number never outranks one denoting a larger
+number — for digit strings of ANY length (the first `maxQualityDigits` digits are kept, and keeping
+a prefix is a floor, which is monotone). `numOf a / 10^|a| ≤ numOf b / 10^|b|` is cross-multiplied. -/
+theorem q_value_monotone (int : Nat) (a b : Bytes) (ha : allDigits a = true) (hb : allDigits b = true)
+    (h : numOf a * 10 ^ b.length ≤ numOf b * 10 ^ a.length) :
+    Q.le (parsedQ int a) (parsedQ int b) = true := by
+  have := fracUnits_mono a b ha hb h
+  simp only [fracUnits] at this
+  simp only [Q.le, Q.units, parsedQ]
+  exact decide_eq_true (Nat.add_le_add_left this _)
+
+/-- non-vacuity: 67 fractional digits (the F07a witness) against `0.5` -/
+example : allDigits (List.replicate 66 48 ++ [49]) = true ∧ allDigits [53] = true ∧
+    numOf (List.replicate 66 48 ++ [49]) * 10 ^ [53].length ≤ numOf [53] * 10 ^ (List.replicate 66 48 ++ [49]).length := by
+  decide
 
 /-! ### Accept-Encoding -/
 
